@@ -215,8 +215,10 @@ def join_args(rng, args, layout):
     return '(' + ', '.join(args) + ')'
 
 
-def call_text(rng, callee, kws, layout=None, nargs=None, force=None):
-    """one call `callee(args)`; `force` = list of argument strings to place first"""
+def call_text(rng, callee, kws, layout=None, nargs=None, force=None, shuffle=False):
+    """one call `callee(args)`; `force` = list of argument strings to place first; `shuffle`: the
+    arguments in random order (a keyword or `**x` in front of a positional one: an argument moved
+    by a small edit; CPython rejects the result, jedi has to live with it)"""
     args = list(force or [])
     kinds = []
     npos = rng.randint(0, 2) if nargs is None else nargs
@@ -252,6 +254,8 @@ def call_text(rng, callee, kws, layout=None, nargs=None, force=None):
             args.append(pick(rng, STARS['dstar']))
             kinds.append('dstar')
     layout = layout or pick(rng, LAYOUTS)
+    if shuffle:
+        rng.shuffle(args)
     return callee + join_args(rng, args, layout), kinds + ['layout:' + layout]
 
 
@@ -292,6 +296,15 @@ def systematic(rng, n_ctx=None):
         callee = pick(rng, RESOLVED)
         items.append({'kinds': ['sys', k, 'callee:' + callee, 'ctx:stmt'],
                       'stmt': '%s(n, %s == 1, %s=2)\n' % (callee, e, pick(rng, dict(CALLEES)[callee]))})
+    # an argument moved behind a keyword / `**` argument (small edit; not valid for CPython):
+    # `callee(kw=e1, e2 == 1)`, `callee(**d, e1 != 2, kw=e2)`
+    for j in range(3):
+        callee = pick(rng, RESOLVED)
+        kws = dict(CALLEES)[callee]
+        k1, k2 = pick(rng, kinds), pick(rng, kinds)
+        front = '%s=%s' % (pick(rng, kws), expr_of(rng, k1)) if j != 1 else pick(rng, STARS['dstar'])
+        items.append({'kinds': ['moved', k2, 'callee:' + callee, 'ctx:stmt'], 'edited': True,
+                      'stmt': '%s(%s, %s)\n' % (callee, front, with_tail(expr_of(rng, k2), pick(rng, [' == 1', '==1'])))})
     # every context once (a random `n_ctx` of them in the quick tier), every callee once
     ctxs = list(enumerate(CONTEXTS))
     if n_ctx is not None and n_ctx < len(ctxs):
@@ -309,7 +322,8 @@ def random_items(rng, n):
     items = []
     for _ in range(n):
         callee, kws = pick(rng, CALLEES)
-        call, kinds = call_text(rng, callee, kws)
+        moved = rng.random() < 0.2
+        call, kinds = call_text(rng, callee, kws, shuffle=moved, nargs=rng.randint(1, 2) if moved else None)
         if rng.random() < 0.25 and kinds[-1] in ('layout:flat', 'layout:nospace'):
             # a call as an argument of a call
             inner, k2 = call_text(rng, *pick(rng, CALLEES), layout='flat')
@@ -318,13 +332,16 @@ def random_items(rng, n):
                 call = head + '(' + inner + ('' if rest == ')' else ',' if 'nospace' in kinds[-1] else ', ') + rest
             kinds = kinds + ['inner-call']
         cname, stmt, start = in_context(rng, call)
-        items.append({'kinds': ['rnd', 'callee:' + callee, 'ctx:' + cname] + kinds, 'stmt': stmt, 'start': start})
+        items.append({'kinds': ['moved' if moved else 'rnd', 'callee:' + callee, 'ctx:' + cname] + kinds, 'stmt': stmt,
+                      'start': start, 'edited': moved})
     return items
 
 
 def lines(rng, n_random, n_ctx=None):
-    """all statements are valid programs when put below HEAD (checked with `compile`-free
-    `ast.parse`; a generated statement that is not valid is dropped, not repaired)"""
+    """all statements are valid programs when put below HEAD (checked with `ast.parse`; a
+    generated statement that is not valid is dropped, not repaired) -- except the family `moved`
+    (kind 'moved', 'edited': True): one argument of a valid call moved behind a keyword / `**`
+    argument, i.e. a small edit of a valid program"""
     import ast
     import warnings
     items = systematic(rng, n_ctx) + random_items(rng, n_random)
@@ -338,7 +355,8 @@ def lines(rng, n_random, n_ctx=None):
                 warnings.simplefilter('ignore')
                 ast.parse(HEAD + it['stmt'])
         except SyntaxError:
-            continue
+            if not it.get('edited'):
+                continue
         seen.add(it['stmt'])
         it['id'] = i
         out.append(it)
